@@ -196,7 +196,7 @@ def eval_case(case):
         if strat == "greedy":
             k = dep_t - m["arrive_step"]
             reach = m["traj"][min(k, len(m["traj"]) - 1)]
-            if soc_dep < min(m["desired"], reach) - 1e-6:
+            if soc_dep < min(m["desired"], reach) - 1e-4:
                 viol.append(("greedy_bound", "C09:greedy_below_full_power_trajectory",
                              "%s: %.6f < min(desired %.4f, reachable %.6f) after %d steps"
                              % (vid, soc_dep, m["desired"], reach, k)))
